@@ -113,7 +113,7 @@ def run(rep):
                 "conversions and arithmetic over 4 currencies under exact rates set through update_currency, and every history of 3 (thorough 4) calls over "
                 "update_currency(code | alias | unknown, 4 rates) and 4 evaluated lines. A case = one line in one spelling (symbol before / after, code, CODE, glued, alias word, "
                 "k / M suffix; keyword to / in / as / into / none) and separator configuration, or one history; non-trivial = two different currencies or a history "
-                "with an update before an evaluation. Random part: histories of 12..40 calls with exact rates, validated by TLC; every third one on two calculators of one process. Pairs: 400 (thorough: all) pairs of TLC's histories on two calculators, interleaved.")
+                "with an update before an evaluation. Random part: histories of 12..40 calls with exact rates, validated by TLC; every third one on two calculators of one process. Pairs: 400 (thorough: 20,000) pairs of TLC's histories on two calculators, interleaved.")
     rep.assumptions = ["renderer lib/render.py (spellings from config.json currency_alias)", "configured rates are read from config.json (the property says 'the configured rate table'); "
                        "terms over them are evaluated in double precision by lib/compare.py at 1e-9", "TLC 1.8.0"]
     r = tlc_must_pass("MC_Percent", "MC_Percent", workers=4, timeout=600)
@@ -145,7 +145,7 @@ def run(rep):
     if forms.CAPTURE is not None:
         return
     replay_histories(rep, hists)
-    replay_pairs(rep, hists, 400 if quick else len(hists))
+    replay_pairs(rep, hists, 400 if quick else 20000)
     random_trace(rep, 150 if quick else 2000)
     # the configuration tables as a model (spec/Config.tla): reported in the evidence, gating nothing here
     import lint
